@@ -21,7 +21,8 @@ def mk_client(Client, world, sm, cfg):
     if cfg["tls"]:
         kw["tls_context"] = sm.tls_context()
     server = "/tmp/mc.sock" if cfg["unix"] else ("mc.example", 11211)
-    return Client(server, socket_module=sm, connect_timeout=cfg.get("ct", CT), timeout=cfg.get("iot", IOT), no_delay=cfg["nodelay"], default_noreply=False, **kw)
+    return Client(server, socket_module=sm, connect_timeout=cfg.get("ct", CT), timeout=cfg.get("iot", IOT), no_delay=cfg["nodelay"], default_noreply=False,
+                  ignore_exc=cfg.get("ign", False), **kw)
 
 
 def connect_plan_to_faults(cfg, naddr, fails, kind="oserror"):
@@ -292,7 +293,9 @@ def main(argv):
     # ---- part 2: single (and double) faults anywhere in a 3-call scenario ------------------------------
     kinds = ["timeout", "reset", "pipe", "oserror", "refused", "valueerror"]
     scenario = [{"op": "set", "k": "a", "v": b"1", "nr": False}, {"op": "get", "k": "a"}, {"op": "get_many", "ks": ["a", "b"]}, {"op": "delete", "k": "a", "nr": False}]
-    for cfg in cfgs:
+    cfgs2 = [c for c in cfgs if (c["ct"], c["iot"]) == (1.5, 2.5)]
+    cfgs2 += [dict(c, ign=True) for c in cfgs2 if not c["keepalive"]]
+    for cfg in cfgs2:
         # dry run to count API occurrences
         def fresh():
             srv = RefServer()
@@ -314,9 +317,16 @@ def main(argv):
                 res = []
                 for n, c in enumerate(scenario):
                     world.tag = n
+                    nled = len(world.ledger)
                     res.append(run_call(client, c))
                     case = {"cfg": cfg, "faults": [list(p) for p in combo], "kind": kind, "results": res, "tags": []}
                     if not audit(ctx, world, client, case, f"after call {n}"):
+                        break
+                    # a socket on which a send/receive/connect-phase call failed must be closed and given up, whether or not the error was swallowed
+                    hit = {e[1] for e in world.ledger[nled:] if e[0] == "fault" and e[1] is not None and e[2][0] != "close"}
+                    bad = [cid for cid in hit if not world.conns[cid].closed or getattr(client.sock, "id", None) == cid]
+                    if bad:
+                        ctx.violation("a socket on which a call failed was not closed / is still attached to the client", dict(case, sockets=bad), tags=["failed-socket-kept"])
                         break
                     if res[-1].startswith("exc:") and client.sock is not None and res[-1] not in ("exc:IllegalInput",):
                         ctx.violation("a failed call left a socket attached to the client", case)
